@@ -123,6 +123,10 @@ func handleUpdateWhere(p *UpdatePlan) error {
 		return nil
 	}
 
+	if err := checkNoSubqueryReadingTable(p.StmtInfo, stmt.Where); err != nil {
+		return err
+	}
+
 	has, result, decorator, err := handleComparisonExpr(p.TableAliasStmtInfo, stmt.Where)
 	if err != nil {
 		return fmt.Errorf("rewrite Where error: %v", err)
@@ -131,6 +135,41 @@ func handleUpdateWhere(p *UpdatePlan) error {
 		p.GetRouteResult().Inter(result)
 	}
 	stmt.Where = decorator
+	return nil
+}
+
+// tableSubqueryFinder looks for a sub-query that has a FROM clause
+type tableSubqueryFinder struct {
+	found bool
+}
+
+// Enter implement ast.Visitor
+func (f *tableSubqueryFinder) Enter(n ast.Node) (ast.Node, bool) {
+	if sel, ok := n.(*ast.SelectStmt); ok && sel.From != nil {
+		f.found = true
+	}
+	return n, f.found
+}
+
+// Leave implement ast.Visitor
+func (f *tableSubqueryFinder) Leave(n ast.Node) (ast.Node, bool) {
+	return n, true
+}
+
+// checkNoSubqueryReadingTable rejects an expression of a sharded UPDATE or DELETE that holds a sub-query
+// reading a table: the sub-query is sent to every routed sub table as it is written, so it would name a
+// logical table the backends do not have, and it could only see the rows of one backend anyway.
+// A sub-query without FROM clause, like (SELECT 1), is a plain value and is let through, and so is any
+// sub-query of a statement on global tables only, whose copies are whole.
+func checkNoSubqueryReadingTable(p *StmtInfo, expr ast.ExprNode) error {
+	if expr == nil || len(p.tableRules) == 0 {
+		return nil
+	}
+	f := &tableSubqueryFinder{}
+	expr.Accept(f)
+	if f.found {
+		return fmt.Errorf("does not support a sub-query reading a table in UPDATE or DELETE in sharding")
+	}
 	return nil
 }
 
@@ -176,6 +215,9 @@ func handleUpdateAssignmentList(p *UpdatePlan) error {
 
 		// the column names in the assigned value are rewritten like those of the WHERE clause
 		if assignment.Expr != nil {
+			if err := checkNoSubqueryReadingTable(p.StmtInfo, assignment.Expr); err != nil {
+				return err
+			}
 			expr, err := rewriteColumnNamesInExpr(p.TableAliasStmtInfo, assignment.Expr)
 			if err != nil {
 				return fmt.Errorf("rewrite column names in assignment value error: %v", err)
